@@ -675,116 +675,148 @@ class Result:
         return dict(self.__dict__)
 
 
-def explore(run, max_paths=None, max_seconds=None, n_samples=2, timeout_ms=60000):
-    """explore all paths of run(ctx).  run records its proof obligations with ctx.check(label, cond)
-    and may return False/None/True (False = concrete failure)."""
+def _one_path(run, plan, timeout_ms, want_sample):
+    """execute one path (the real code under proxies) and decide its checks; returns a plain dict"""
     global _cur
     z = z3()
+    out = {'trail': None, 'completed': False, 'aborted': False, 'status': 'ok', 'failed': None, 'cex': None, 'detail': '', 'queries': 0, 'solver_s': 0.0,
+           'checks': 0, 'str_used': 0, 'sample': None}
+    ctx = SymCtx(plan, timeout_ms)
+    _cur = ctx
+    try:
+        ret = run(ctx)
+        out['completed'] = True
+        if ret is False:
+            ctx.checks.append(('harness returned False', False))
+    except Abort:
+        out['aborted'] = True
+    except Inconclusive as e:
+        out['status'] = 'unknown'
+        out['detail'] = 'solver: %s' % (e,)
+    except Exception as e:
+        # an exception escaping the real code on this path: candidate violation, decided by the concrete replay
+        import traceback, os
+        tb = traceback.extract_tb(e.__traceback__)
+        where = ' <- '.join('%s:%d' % (f.filename.split('/')[-1], f.lineno) for f in tb[-3:][::-1])
+        if type(e).__module__ != 'gdb' and (not tb or not os.path.realpath(tb[-1].filename).startswith(os.path.realpath(os.environ.get('VERIF_REPO', '/repo')) + os.sep)):
+            # raised by harness code itself (innermost frame outside the repository): a harness bug, never a verdict
+            out['status'] = 'error'
+            out['detail'] = 'harness exception %s: %s @ %s' % (type(e).__name__, e, where)
+        else:
+            out['status'] = 'cex'
+            out['failed'] = 'exception: %s: %s @ %s' % (type(e).__name__, e, where)
+            try:
+                if ctx._check() == 'sat':
+                    out['cex'] = ctx.model_assignment()
+                else:
+                    out['status'] = 'error'
+                    out['detail'] = 'exception on infeasible path: ' + out['failed']
+            except Inconclusive:
+                out['status'] = 'unknown'
+    except Unsupported as e:
+        out['status'] = 'error'
+        out['detail'] = 'unsupported operation on a symbolic value: %s' % (e,)
+    finally:
+        _cur = None
+    if out['completed'] and out['status'] == 'ok':
+        out['str_used'] = ctx.str_used
+        try:
+            bad = None
+            sym = []
+            for label, cond in ctx.checks:
+                if isinstance(cond, bool):
+                    if not cond:
+                        bad = label
+                        break
+                elif isinstance(cond, SBool):
+                    sym.append((label, cond.e))
+                else:
+                    sym.append((label, cond))
+            if bad is not None:
+                if ctx._check() != 'sat':
+                    raise Inconclusive('path condition unsat at end of path')
+                out['status'] = 'cex'
+                out['failed'] = bad
+                out['cex'] = ctx.model_assignment()
+            elif sym:
+                neg = z.Not(z.And(*[c for _, c in sym]))
+                r = ctx._check(neg)
+                if r == 'sat':
+                    m = ctx.s.model()
+                    out['status'] = 'cex'
+                    for label, c in sym:
+                        if z.is_false(m.eval(c, model_completion=True)):
+                            out['failed'] = label
+                            break
+                    ctx.s.add(neg)
+                    ctx._check()
+                    out['cex'] = ctx.model_assignment()
+                else:
+                    out['checks'] += len(sym)
+            out['checks'] += sum(1 for _, c in ctx.checks if isinstance(c, bool) and c)
+            if out['status'] == 'ok' and want_sample:
+                if ctx._check() == 'sat':
+                    out['sample'] = {'assignment': ctx.model_assignment(), 'checks': [l for l, _ in ctx.checks][:12],
+                                     'notes': [list(map(str, n)) for n in ctx.notes][:8]}
+        except Inconclusive as e:
+            out['status'] = 'unknown'
+            out['detail'] = 'solver: %s' % (e,)
+    out['trail'] = list(ctx.trail)
+    out['queries'] = ctx.queries
+    out['solver_s'] = ctx.solver_s
+    return out
+
+
+def _one_path_isolated(run, plan, timeout_ms, want_sample):
+    """the same in a forked child: process-wide state the code under test may keep cannot leak from path to path"""
+    import os, pickle
+    rfd, wfd = os.pipe()
+    pid = os.fork()
+    if pid == 0:
+        try:
+            os.close(rfd)
+            out = _one_path(run, plan, timeout_ms, want_sample)
+            with os.fdopen(wfd, 'wb') as f:
+                pickle.dump(out, f)
+        except BaseException as e:
+            try:
+                os.write(wfd, pickle.dumps({'status': 'error', 'detail': 'child failed: %r' % (e,), 'trail': [], 'completed': False, 'aborted': False, 'failed': None,
+                                            'cex': None, 'queries': 0, 'solver_s': 0.0, 'checks': 0, 'str_used': 0, 'sample': None}))
+            except Exception:
+                pass
+        finally:
+            os._exit(0)
+    os.close(wfd)
+    data = b''
+    with os.fdopen(rfd, 'rb') as f:
+        data = f.read()
+    os.waitpid(pid, 0)
+    return pickle.loads(data)
+
+
+def explore(run, max_paths=None, max_seconds=None, n_samples=2, timeout_ms=60000, isolate=False):
+    """explore all paths of run(ctx).  run records its proof obligations with ctx.check(label, cond)
+    and may return False/None/True (False = concrete failure).  isolate=True runs every path in a forked child."""
     res = Result()
     plan = []
     t0 = time.time()
+    step = _one_path_isolated if isolate else _one_path
     while True:
-        ctx = SymCtx(plan, timeout_ms)
-        _cur = ctx
-        completed = False
-        try:
-            ret = run(ctx)
-            completed = True
-            if ret is False:
-                ctx.checks.append(('harness returned False', False))
-        except Abort:
+        o = step(run, plan, timeout_ms, len(res.samples) < n_samples)
+        res.queries += o['queries']
+        res.solver_s += o['solver_s']
+        if o['aborted']:
             res.aborted += 1
-        except Inconclusive as e:
-            res.status = 'unknown'
-            res.detail = 'solver: %s' % (e,)
-        except Exception as e:
-            # an exception escaping the real code (or the oracle) on this path: candidate violation,
-            # decided by the concrete replay
-            import traceback, os
-            tb = traceback.extract_tb(e.__traceback__)
-            if type(e).__module__ != 'gdb' and (not tb or not os.path.realpath(tb[-1].filename).startswith(os.path.realpath(os.environ.get('VERIF_REPO', '/repo')) + os.sep)):
-                # raised by harness code itself (innermost frame outside the repository): a harness bug, never a verdict
-                res.status = 'error'
-                res.detail = 'harness exception %s: %s @ %s' % (type(e).__name__, e, ' <- '.join(
-                    '%s:%d' % (f.filename.split('/')[-1], f.lineno) for f in tb[-3:][::-1]))
-                res.queries += ctx.queries
-                res.solver_s += ctx.solver_s
-                _cur = None
-                break
-            res.status = 'cex'
-            res.failed = 'exception: %s: %s @ %s' % (type(e).__name__, e, ' <- '.join(
-                '%s:%d' % (f.filename.split('/')[-1], f.lineno) for f in tb[-3:][::-1]))
-            try:
-                if ctx._check() == 'sat':
-                    res.cex = ctx.model_assignment()
-                else:
-                    res.status = 'error'
-                    res.detail = 'exception on infeasible path: ' + res.failed
-            except Inconclusive:
-                res.status = 'unknown'
-            res.queries += ctx.queries
-            res.solver_s += ctx.solver_s
-            _cur = None
-            break
-        except Unsupported as e:
-            res.status = 'error'
-            res.detail = 'unsupported operation on a symbolic value: %s' % (e,)
-        finally:
-            _cur = None
-        if res.status in ('unknown', 'error'):
-            res.queries += ctx.queries
-            res.solver_s += ctx.solver_s
-            break
-        if completed:
+        if o['completed']:
             res.paths += 1
-            res.str_used += ctx.str_used
-            try:
-                bad = None
-                sym = []
-                for label, cond in ctx.checks:
-                    if isinstance(cond, bool):
-                        if not cond:
-                            bad = label
-                            break
-                    elif isinstance(cond, SBool):
-                        sym.append((label, cond.e))
-                    else:
-                        sym.append((label, cond))
-                if bad is not None:
-                    if ctx._check() != 'sat':
-                        raise Inconclusive('path condition unsat at end of path')
-                    res.status = 'cex'
-                    res.failed = bad
-                    res.cex = ctx.model_assignment()
-                elif sym:
-                    neg = z.Not(z.And(*[c for _, c in sym]))
-                    r = ctx._check(neg)
-                    if r == 'sat':
-                        m = ctx.s.model()
-                        res.status = 'cex'
-                        for label, c in sym:
-                            if z.is_false(m.eval(c, model_completion=True)):
-                                res.failed = label
-                                break
-                        ctx.s.add(neg)
-                        ctx._check()
-                        res.cex = ctx.model_assignment()
-                    else:
-                        res.checks += len(sym)
-                res.checks += sum(1 for _, c in ctx.checks if isinstance(c, bool) and c)
-                if res.status == 'ok' and len(res.samples) < n_samples:
-                    if ctx._check() == 'sat':
-                        res.samples.append({'assignment': ctx.model_assignment(),
-                                            'checks': [l for l, _ in ctx.checks][:12],
-                                            'notes': [list(map(str, n)) for n in ctx.notes][:8]})
-            except Inconclusive as e:
-                res.status = 'unknown'
-                res.detail = 'solver: %s' % (e,)
-        res.queries += ctx.queries
-        res.solver_s += ctx.solver_s
-        if res.status != 'ok':
+            res.str_used += o['str_used']
+            res.checks += o['checks']
+            if o['sample'] is not None:
+                res.samples.append(o['sample'])
+        if o['status'] != 'ok':
+            res.status, res.failed, res.cex, res.detail = o['status'], o['failed'], o['cex'], o['detail']
             break
-        plan = list(ctx.trail)
+        plan = list(o['trail'])
         while plan and not (plan[-1][0] and plan[-1][1]):
             plan.pop()
         if not plan:
